@@ -698,12 +698,16 @@ where
             else .ok (row, targets.zip items)
           | .other => .error .type
 
-/-- `Table.__setitem__(key, value)` -/
+/-- `Table.__setitem__(key, value)`: `_assign_cells` plans the write and runs the column loop; when any column refuses,
+    the wrapper puts every column back (storage, dtype, memo) and re-raises -/
 def tsetitem (P : Kind → Kind → Bool) (conv : Kind → Nat → Option Nat)
     (key : TKey) (value : TValue) (t : TState) : Option Err × TState :=
   match plan (t.cols.map (·.name)) t.cols.length key value with
   | .error e => (some e, t)
-  | .ok (row, ws) => writeCols P conv row ws t
+  | .ok (row, ws) =>
+    match writeCols P conv row ws t with
+    | (some e, _) => (some e, t)
+    | (none, t') => (none, t')
 
 /-- shape of a table: per column its length and name -/
 def shape (t : TState) : List (Nat × Option Nat) := t.cols.map (fun c => (c.data.length, c.name))
@@ -804,11 +808,10 @@ def taccepts (dm : TDemand) (t0 : TState) (out : Option Err × TState) : Bool :=
   | .either t, (none, t') => sameTab t t' && freshTab t'
   | .either _, (some _, t') => sameTab t0 t' && freshTab t'
 
-/-- a failed table assignment that nevertheless stored something (the known finding
-    `C08/table-setitem-partial-write`): the observed outcome is an error, the state differs from
-    the one before, and it is exactly the state the model of the present code reaches -/
-def partialWrite (model out : Option Err × TState) (t0 : TState) : Bool :=
-  out.1.isSome && model.1.isSome && sameTab model.2 out.2 && !sameTab t0 out.2
+/-- a failed table assignment that nevertheless stored something (the defect repaired in ff19998, kept as a diagnostic):
+    the observed outcome is an error and the state differs from the one before -/
+def partialWrite (_model out : Option Err × TState) (t0 : TState) : Bool :=
+  out.1.isSome && !sameTab t0 out.2
 
 /-- sequential first-match renaming; `none` = some old name is missing at its turn -/
 def renameSpec : List (Option Nat × Option Nat) → List (Option Nat) → Option (List (Option Nat))
